@@ -156,6 +156,7 @@ P = {
   technique="CFG dominance / must-pass-through + sibling-branch agreement"),
 "C14": dict(
   decided={
+    "C15.i": "releasing the per-object records, evaluated on a sample (records {1,2,9}, ids [1,2] recorded by this parser): exactly the parser's own records are removed, finished or not, and no others",
     "C14.i": "restore is idempotent per parser: the 'replaced' flag is cleared before any nesting counter is decremented, on every path and unconditionally (a repeated restore for the same parser does nothing)",
     "C14.h": "postponed initialisation: the per-object record is removed from _tx_obj_attrs before the collected attributes are applied to the object and before __init__ runs (the instrumented __setattr__ routes by the record's presence)",
     "C14.a": "obligation O1: attribute-method instrumentation of user classes is restored on every exit of every load for every model under construction; no release without acquire",
@@ -171,6 +172,7 @@ P = {
   technique="obligation ledger over normal + exceptional CFG exits through the call graph"),
 "C15": dict(
   decided={
+    "C15.i": "releasing the per-object records, evaluated on a sample (records {1,2,9}, ids [1,2] recorded by this parser): exactly the parser's own records are removed, finished or not, and no others",
     "C15.h": "_abandon_user_objects restores the classes and releases the per-object records for every abandoned model that has a parser; the two calls depend on nothing else (not on the parser's 'replaced' flag)",
     "C14.i": "(shared with C14) restore is idempotent per parser: the 'replaced' flag is cleared before any nesting counter is decremented, on every path and unconditionally (a repeated restore for the same parser does nothing)",
     "C15.b": "obligation O2: per-object attribute storage on user classes released on every failure exit",
@@ -212,6 +214,7 @@ P = {
   technique="CFG dominance + decision table + key-normalisation dataflow"),
 "C18": dict(
   decided={
+    "C15.i": "releasing the per-object records, evaluated on a sample (records {1,2,9}, ids [1,2] recorded by this parser): exactly the parser's own records are removed, finished or not, and no others",
     "C18.a": "obligation O3: from each registration of a model in a repository, every may-raise statement up to the public entry lies under a handler that removes the models of this attempt from both repositories",
     "C18.b": "only models carrying the construction marker are removed (earlier cached models stay)",
     "C18.c": "cleanup-and-reraise handlers that remove models are catch-all",
